@@ -30,6 +30,9 @@ type LoopSpec struct {
 	RefStep func(ref, c string) string
 	// Concrete asks for concrete unrolling over a List of known length.
 	Concrete bool
+	// MaxIter > 0 bounds the number of iterations explored along one path; after that many the
+	// loop is treated as exhausted (used to look at the per-element effect of accumulating loops).
+	MaxIter int
 }
 
 type Hooks struct {
@@ -72,6 +75,7 @@ type State struct {
 	Ref     string
 	Iter    map[ast.Stmt]string
 	IterNow string // case of the innermost active loop iteration
+	iterCnt map[ast.Stmt]int
 }
 
 func (st *State) clone() *State {
@@ -92,6 +96,12 @@ func (st *State) clone() *State {
 	}
 	for k, v := range st.Iter {
 		n.Iter[k] = v
+	}
+	if st.iterCnt != nil {
+		n.iterCnt = make(map[ast.Stmt]int, len(st.iterCnt))
+		for k, v := range st.iterCnt {
+			n.iterCnt[k] = v
+		}
 	}
 	n.Events = append([]Event(nil), st.Events...)
 	n.Trace = append([]string(nil), st.Trace...)
@@ -661,6 +671,11 @@ func (in *Interp) execLoop(loop ast.Stmt, st *State, label string) []result {
 		}
 		return !hasNested
 	})
+	for _, s0 := range starts {
+		if s0.iterCnt != nil {
+			delete(s0.iterCnt, loop)
+		}
+	}
 	seen := map[string]bool{}
 	work := starts
 	outerIter := st.IterNow
@@ -692,7 +707,14 @@ func (in *Interp) execLoop(loop ast.Stmt, st *State, label string) []result {
 				delete(s.Assumed, k)
 			}
 		}
+		if spec != nil && spec.MaxIter > 0 && s.iterCnt[loop] >= spec.MaxIter {
+			exit(s)
+			continue
+		}
 		key := s.key(func(v Val) string { return showVal(v, s.heap, 0) })
+		if spec != nil && spec.MaxIter > 0 {
+			key += fmt.Sprintf("|iter=%d", s.iterCnt[loop])
+		}
 		if seen[key] {
 			// this (state, ref) pair was explored already; keep the events seen on the way
 			out = append(out, result{st: s, c: cContinue, label: "<cut>"})
@@ -729,6 +751,10 @@ func (in *Interp) execLoop(loop ast.Stmt, st *State, label string) []result {
 				}
 				e.Iter[loop] = c
 				e.IterNow = c
+				if e.iterCnt == nil {
+					e.iterCnt = map[ast.Stmt]int{}
+				}
+				e.iterCnt[loop]++
 				if c != "" {
 					e.Trace = append(e.Trace, c)
 					if spec.RefStep != nil {
